@@ -34,6 +34,7 @@ type HarnessSpec struct {
 	Reach       []string            `json:"reach"`
 	Replace     map[string]string   `json:"replace"`
 	Native      string              `json:"native"` // "" (default replay) | "none"
+	NoDiff      bool                `json:"no_diff"` // skip the engine-vs-native differential
 	Note        string              `json:"note"`
 }
 
@@ -180,6 +181,18 @@ func pkgNameOf(dir string) string {
 	return filepath.Base(dir)
 }
 
+// rewritePackageClause makes the harness file belong to the package of the directory it is injected into.
+func rewritePackageClause(src []byte, pname string) []byte {
+	lines := strings.Split(string(src), "\n")
+	for i, l := range lines {
+		if strings.HasPrefix(strings.TrimSpace(l), "package ") {
+			lines[i] = "package " + pname
+			break
+		}
+	}
+	return []byte(strings.Join(lines, "\n"))
+}
+
 func buildOverlay(spec *Unit) map[string][]byte {
 	ov := map[string][]byte{}
 	pdir := filepath.Join(repoDir, spec.Package)
@@ -191,7 +204,7 @@ func buildOverlay(spec *Unit) map[string][]byte {
 		if err != nil {
 			panic(err)
 		}
-		ov[filepath.Join(pdir, f)] = b
+		ov[filepath.Join(pdir, f)] = rewritePackageClause(b, pname)
 	}
 	return ov
 }
@@ -366,6 +379,7 @@ func runHarness(p *Program, spec *Unit, hs *HarnessSpec, tier string, o *runOpts
 	ex := &Explorer{solver: solver, stats: newStats(), maxSteps: ts.MaxSteps, maxPaths: ts.MaxPaths, maxViolPerID: 3}
 	hspec := *spec
 	hspec.params = ts.Params
+	_ = hspec.params
 	if hs.MapOrder != nil {
 		hspec.MapOrder = *hs.MapOrder
 	}
